@@ -28,6 +28,8 @@ pub struct Scripted {
     pub script: Vec<Draw>,
     pub pos: usize,
     pub calls: Vec<usize>,
+    /// the bytes served for every 64-byte call (a scalar draw), in order
+    pub drawn: Vec<[u8; 64]>,
     fallback: StdRng,
     /// when set, only 64-byte calls (scalar draws) consume script entries
     pub scalar_only: bool,
@@ -35,7 +37,7 @@ pub struct Scripted {
 
 impl Scripted {
     pub fn new(script: Vec<Draw>, seed: u64) -> Self {
-        Scripted { script, pos: 0, calls: vec![], fallback: seeded(seed, 0x5c), scalar_only: true }
+        Scripted { script, pos: 0, calls: vec![], drawn: vec![], fallback: seeded(seed, 0x5c), scalar_only: true }
     }
     pub fn scalar_draws(&self) -> usize {
         self.calls.iter().filter(|&&w| w == 64).count()
@@ -79,6 +81,11 @@ impl RngCore for Scripted {
                 dest[..n].copy_from_slice(&s[..n]);
             }
             Draw::Generic => self.fallback.fill_bytes(dest),
+        }
+        if dest.len() == 64 {
+            let mut a = [0u8; 64];
+            a.copy_from_slice(dest);
+            self.drawn.push(a);
         }
     }
     fn try_fill_bytes(&mut self, dest: &mut [u8]) -> Result<(), rand::Error> {
